@@ -32,7 +32,8 @@ func init() { log.SetOutput(io.Discard) }
 var (
 	goodBlocks = []string{
 		"10.0.0.0/8", "10.1.0.0/16", "192.168.0.0/24", "1.2.3.4", "1.2.3.4/32", "0.0.0.0/0", "127.0.0.0/8",
-		"10.1.2.3/8", "1.2.3.4/08", "9.9.9.9/31",
+		"10.1.2.3/8", "1.2.3.4/08", "9.9.9.9/31", "10.0.0.0/24", "10.0.0.0/16", "192.168.0.0/16", "192.168.0.0",
+		"2001:db8::/64", "fe80::/64",
 		"fe80::/10", "::1", "2001:db8::/32", "::/0", "2001:db8::1/128", "2001:DB8::5", "2001::/16",
 		"::ffff:1.2.3.0/120", "::ffff:10.0.0.0/104", "::ffff:0:0/96", "::ffff:1.2.3.4", "::ffff:0:0/90",
 		"::ffff:9.9.9.9/128", "1:2:3:4:5:6:1.2.3.4/128", "::1.2.3.4",
@@ -49,7 +50,7 @@ var (
 	addrs = []string{
 		"10.1.2.3", "10.200.0.1", "192.168.0.7", "192.168.1.7", "1.2.3.4", "1.2.3.5", "9.9.9.9", "9.9.9.8",
 		"127.0.0.1", "0.0.0.0", "255.255.255.255",
-		"::1", "fe80::1", "2001:db8::5", "2001:db8::1", "2001::1", "::", "febf::1", "fec0::1",
+		"::1", "fe80::1", "2001:db8::5", "2001:db8::1", "2001::1", "2001:db8:1::1", "10.0.1.1", "10.0.0.9", "::", "febf::1", "fec0::1",
 		"::ffff:10.1.2.3", "::ffff:1.2.3.4", "::ffff:9.9.9.9", "::1.2.3.4", "1:2:3:4:5:6:102:304",
 	}
 	zoned   = []string{"fe80::1%eth0", "2001::1%eth0", "2001:db8::5%1", "::1%lo", "fe80::1%25eth0"}
